@@ -40,6 +40,18 @@ func main() {
 		gc.Emit(out, gc.Run(sc))
 		out.Count("subscribe_with_cancelled_context")
 	}
+	// a consumer that keeps one message unsettled for several seconds (nothing may be handed out meanwhile, however long it takes)
+	{
+		sc := gc.Scenario{Buf: 1, Seed: rng.Next(),
+			Subs: []gc.SubSpec{{Topic: 0, Phase: 0, CancelAtRecv: -1, NestedTopic: -1, SlowUs: 5300000}},
+			Pubs: []gc.PubSpec{{Topic: 0, Calls: 2, Batch: 1}}}
+		if a.Thorough() {
+			sc.Subs[0].SlowUs = 11000000
+		}
+		out.Begin(sc.Describe())
+		gc.Emit(out, gc.Run(sc))
+		out.Count("slow_consumer_seconds")
+	}
 	f := gc.Focus{Blocking: 500, Persistent: 300, Cancel: 250, Hold: 80, Nested: 150, Late: 300, CloseRace: 100, MaxSubs: 3, MaxPubs: 3, MaxMsgs: 4}
 	for i := 0; i < n; i++ {
 		sc := gc.Random(rng, f)
